@@ -2715,7 +2715,9 @@ PPL::Grid::frequency(const Linear_Expression& expr,
     }
     freq_n = 0;
     freq_d = 1;
-    val_n = 0;
+    // The only point is the origin: the value of `expr' is its
+    // inhomogeneous term.
+    val_n = expr.inhomogeneous_term();
     val_d = 1;
     return true;
   }
